@@ -90,6 +90,8 @@ func (l *lcdRun) do(op string) string {
 			l.p.WriteLYC(uint8(unhex(w[1])))
 		case "ly":
 			l.p.WriteLY(uint8(unhex(w[1])))
+		case "scx":
+			l.p.WriteSCX(uint8(unhex(w[1]))) // scrolling must not influence line/mode timing or requests
 		default:
 			return "bad-op"
 		}
@@ -150,6 +152,27 @@ func lcdGen(c *ctx) {
 	}
 	span := frames*lcdFrame + 130
 	steadyRuns := 0
+
+	// Part 0: one long uninterrupted on-period (more than 65 536 cycles: no counter narrower than the frame
+	// arithmetic survives it) and SCX rewritten around the end of mode 3 of a line (scrolling must not move any
+	// mode boundary or request)
+	l.steady(0x78, 0x90, 5*lcdFrame+200)
+	for _, ln := range []int{3, 143} {
+		for cyc := 56; cyc < 70; cyc++ {
+			l.do("reset")
+			l.do("lcdc 11")
+			l.do("stat 38")
+			l.do("lcdc 91")
+			l.ticks(ln*114 - 2 + 5)
+			l.do("scx 07")
+			l.ticks(cyc - 5)
+			l.do("scx 00")
+			l.ticks(400)
+			if ln == 143 {
+				l.ticks(1400)
+			}
+		}
+	}
 
 	// Part 1: each single STAT source (and none / all four) with constant LYC, whole frames.
 	lycSpecial := []int{0, 1, 143, 144, 153, 154, 200, 255}
